@@ -114,3 +114,38 @@ Example ex_mutation :
   /\ step_flag (run (firstn 4 ops) init) (nth 4 ops (mkOp 99 0 0 0 0 [] 0%Z 0%Z)) = 1%Z
   /\ reg_bytes (run ops init) 0 = [9;9;7;9]%Z.
 Proof. vm_compute. auto. Qed.
+
+(* ------------------------------------------------------------------ export -> import round trip (arrays without validity) *)
+Lemma get_exp_last s e : get_exp (add_node (NExp e) s) (next_id s) = Some e.
+Proof. unfold get_exp, add_node, next_id. cbn [nodes]. rewrite nth_error_app_last. reflexivity. Qed.
+Lemma reg_bytes_last s r : reg_bytes (add_node (NReg r) s) (next_id s) = r_bytes r.
+Proof. unfold reg_bytes, get_reg, add_node, next_id. cbn [nodes]. rewrite nth_error_app_last. reflexivity. Qed.
+
+Lemma import_arr_no_nulls s e ex v : get_exp s e = Some ex -> e_kind ex = 4 -> e_bufs ex = [v] ->
+  import_arr s e =
+  if 4 * e_len ex =? 0
+  then (add_node (NReg (fresh_region [] (OStd 64) 0 true)) s, Some (mkO 4 [mkH (next_id s) 0 0 0 0] []))
+  else (add_node (NReg (fresh_region (firstn (4 * e_len ex) (skipn (hoff v) (reg_bytes s (hreg v)))) (OImp e) (4 * e_len ex) true)) s,
+        Some (mkO 4 [mkH (next_id s) 0 (4 * e_len ex) 0 0] [])).
+Proof.
+  intros Hg Hk Hb. unfold import_arr. rewrite Hg, Hk, Hb. cbn [Nat.eqb].
+  destruct (4 * e_len ex =? 0); reflexivity.
+Qed.
+
+Lemma roundtrip_no_nulls s c v :
+  hreg v < length (nodes s) -> hlen v mod 4 = 0 ->
+  exists o, snd (import_arr (fst (export_arr s 4 c [v])) (snd (export_arr s 4 c [v]))) = Some o /\ okind o = 4 /\
+            view (fst (import_arr (fst (export_arr s 4 c [v])) (snd (export_arr s 4 c [v])))) o = view s (mkO 4 [v] []).
+Proof.
+  intros Hlt Hmod. unfold export_arr. cbn [filter_nulls Nat.eqb fst snd].
+  set (ex := mkE 4 (hlen v / 4) 0 [mkH (hreg v) (hoff v) (hlen v) 0 0] c 0).
+  rewrite (import_arr_no_nulls _ _ ex (mkH (hreg v) (hoff v) (hlen v) 0 0) (get_exp_last s ex) eq_refl eq_refl).
+  cbn [e_len ex hreg hoff].
+  assert (Hlen : 4 * (hlen v / 4) = hlen v).
+  { pose proof (Nat.div_mod (hlen v) 4 ltac:(lia)). lia. }
+  assert (Hb : reg_bytes (add_node (NExp ex) s) (hreg v) = reg_bytes s (hreg v)) by (apply rb_add_node; exact Hlt).
+  destruct (4 * (hlen v / 4) =? 0) eqn:Z; cbn [fst snd]; eexists; (split; [reflexivity|]); (split; [reflexivity|]);
+    unfold view; cbn [okind ohs]; unfold hbytes; cbn [hlen hoff hreg].
+  - apply Nat.eqb_eq in Z. assert (H0 : hlen v = 0) by lia. rewrite H0. reflexivity.
+  - rewrite reg_bytes_last. cbn [fresh_region r_bytes skipn]. rewrite Hb, Hlen, firstn_firstn, Nat.min_id. reflexivity.
+Qed.
